@@ -65,6 +65,7 @@ type xout struct {
 	adraws     []*big.Int // every draw of a by the server, in order
 	sid        uint64
 	keys       []uint64 // client's trusted fingerprints
+	started    int64    // unix time when the exchange started
 	sfp        uint64
 	prime      *big.Int
 }
@@ -111,7 +112,7 @@ func runCase(x xcase, priv exchange.PrivateKey) xout {
 	for i := 0; i < x.extra/2; i++ {
 		keys = append(keys, fakeKey(r))
 	}
-	o := xout{sfp: uint64(priv.Fingerprint())}
+	o := xout{sfp: uint64(priv.Fingerprint()), started: time.Now().Unix()}
 	for _, k := range keys {
 		o.keys = append(o.keys, uint64(k.Fingerprint()))
 	}
@@ -354,6 +355,8 @@ func run(c *hc.Ctx) error {
 				c.Fail("zero-key", in, "client returned an all-zero auth key")
 			case x.temp != (o.cres.ExpiresAt != 0):
 				c.Fail("expires-at", in, fmt.Sprintf("temp=%v ExpiresAt=%d", x.temp, o.cres.ExpiresAt))
+			case x.temp && (o.cres.ExpiresAt < o.started+int64(x.expires)-2 || o.cres.ExpiresAt > time.Now().Unix()+int64(x.expires)+2):
+				c.Fail("expires-at", in, fmt.Sprintf("ExpiresAt=%d is not now+expires_in (started %d, expires_in %d)", o.cres.ExpiresAt, o.started, x.expires))
 			}
 		}
 		// ---- model line
@@ -461,6 +464,10 @@ func run(c *hc.Ctx) error {
 			c.Res.TracesValidated++
 		}
 	}
+	// ---- the server side: scripted clients against the real ServerExchange.Run
+	if err := serverCorrespondence(c, priv); err != nil {
+		return err
+	}
 	bres, err := c.Drv.Batch(byteLines)
 	if err != nil {
 		return err
@@ -471,7 +478,7 @@ func run(c *hc.Ctx) error {
 		}
 	}
 	c.Count(fmt.Sprintf("byte-level comparisons: %d", len(bres)))
-	c.Res.Rule = "each case = one complete exchange, client and server both the real implementation; datacenter ids cycle through −3…5 and 10002, both modes alternate, server RNG = in-tree TestServerRNG (25%), harness RNG with the Telegram prime (25%) or one of 9 other 2048-bit safe primes with a random semiprime pq (50%), 0–3 foreign trusted keys before the server's; all random streams derive from the seed; every case is non-trivial; distinct = distinct case line"
+	c.Res.Rule = "each case = one complete exchange, client and server both the real implementation; datacenter ids cycle through −3…5 and 10002, both modes alternate, server RNG = in-tree TestServerRNG (25%), harness RNG with the Telegram prime (25%) or one of 9 other 2048-bit safe primes with a random semiprime pq (50%), 0–3 foreign trusted keys before the server's; all random streams derive from the seed; every case is non-trivial; plus datacenter-mismatch runs and scripted clients (one deviation each: repeated / legacy req_pq, undecryptable or non-TL encrypted data, junk at each step) against the real server; distinct = distinct case line"
 	c.PartialNote("read/write interleavings: the protocol is strict request/response over a synchronous pipe (net.Pipe), so the only schedule freedom is goroutine start order; it is not controlled by the harness")
 	c.PartialNote("ciphertext bytes are opaque to the model: the harness decrypts them with the real keys; the TL bytes of every message, of the envelopes and of the three inner-data plaintexts are compared byte for byte with the model's codec (RSA_PAD and the IGE answer encryption are C14/C11/C04 territory)")
 	return nil
